@@ -195,8 +195,139 @@ func ruleStationary(p *Prog, r *Res, rule string, pkgs []string, floor int) {
 			seen := map[*cfg.Block]bool{}
 			var witness []*cfg.Block
 			var dfs func(b *cfg.Block, path []*cfg.Block) bool
+			// a range over X whose body never comes back to the range (it leaves on every path) is left over its `done` edge
+			// only when X is empty; inside `for len(X) != 0 { … }` that cannot happen on a path that changes no state
+			infeasible := func(b *cfg.Block, si int) bool {
+				if b.Kind != cfg.KindRangeLoop || si != 1 || len(b.Succs) != 2 || fs.Cond == nil {
+					return false
+				}
+				rs, ok := b.Stmt.(*ast.RangeStmt)
+				if !ok {
+					return false
+				}
+				xs := exprString(p.Fset, ast.Unparen(rs.X))
+				nonEmpty := false
+				for _, c := range conjuncts(fs.Cond) {
+					be, ok := ast.Unparen(c).(*ast.BinaryExpr)
+					if !ok {
+						continue
+					}
+					isLenX := func(e ast.Expr) bool {
+						c, ok := ast.Unparen(e).(*ast.CallExpr)
+						return ok && isBuiltin(info, c, "len") && len(c.Args) == 1 && exprString(p.Fset, ast.Unparen(c.Args[0])) == xs
+					}
+					lit := func(e ast.Expr) string {
+						if bl, ok := ast.Unparen(e).(*ast.BasicLit); ok {
+							return bl.Value
+						}
+						return ""
+					}
+					switch {
+					case isLenX(be.X) && lit(be.Y) == "0" && (be.Op == token.NEQ || be.Op == token.GTR):
+						nonEmpty = true
+					case isLenX(be.X) && lit(be.Y) == "1" && be.Op == token.GEQ:
+						nonEmpty = true
+					case isLenX(be.Y) && lit(be.X) == "0" && (be.Op == token.NEQ || be.Op == token.LSS):
+						nonEmpty = true
+					}
+				}
+				if !nonEmpty {
+					return false
+				}
+				// the body never returns to the range header
+				seenB := map[*cfg.Block]bool{}
+				work := []*cfg.Block{b.Succs[0]}
+				for len(work) > 0 {
+					x := work[0]
+					work = work[1:]
+					if seenB[x] {
+						continue
+					}
+					seenB[x] = true
+					if x == b {
+						return false
+					}
+					if x == header {
+						continue
+					}
+					work = append(work, x.Succs...)
+				}
+				return true
+			}
+			// a boolean declared false inside the loop body and set to true only in blocks that change state is false on every
+			// path that changes no state: the true edge of `if flag` (false edge of `if !flag`) is not part of such a path
+			falseOnCleanPaths := func(v types.Object) bool {
+				if v == nil || v.Pos() < fs.Body.Pos() || v.Pos() > fs.Body.End() {
+					return false
+				}
+				okAll, declFalse := true, false
+				for b := range lp.Blocks {
+					for _, n := range b.Nodes {
+						as, isAs := n.(*ast.AssignStmt)
+						if !isAs {
+							if vs, ok := n.(*ast.ValueSpec); ok {
+								for i, id := range vs.Names {
+									if info.Defs[id] == v {
+										if i >= len(vs.Values) {
+											declFalse = true // zero value
+										} else if id2, ok := ast.Unparen(vs.Values[i]).(*ast.Ident); ok && id2.Name == "false" {
+											declFalse = true
+										} else {
+											okAll = false
+										}
+									}
+								}
+							}
+							continue
+						}
+						for i, l := range as.Lhs {
+							if identObj(info, l) != v {
+								continue
+							}
+							isFalse := false
+							if i < len(as.Rhs) && len(as.Lhs) == len(as.Rhs) {
+								if id2, ok := ast.Unparen(as.Rhs[i]).(*ast.Ident); ok && id2.Name == "false" {
+									isFalse = true
+								}
+							}
+							switch {
+							case isFalse && as.Tok == token.DEFINE:
+								declFalse = true
+							case isFalse:
+							case dirty[b]:
+							default:
+								okAll = false
+							}
+						}
+					}
+				}
+				return okAll && declFalse
+			}
+			flagEdgeInfeasible := func(b *cfg.Block, si int) bool {
+				if len(b.Succs) != 2 || len(b.Nodes) == 0 {
+					return false
+				}
+				cond, ok := b.Nodes[len(b.Nodes)-1].(ast.Expr)
+				if !ok {
+					return false
+				}
+				cond = ast.Unparen(cond)
+				neg := false
+				if ue, ok := cond.(*ast.UnaryExpr); ok && ue.Op == token.NOT {
+					neg = true
+					cond = ast.Unparen(ue.X)
+				}
+				id, ok := cond.(*ast.Ident)
+				if !ok || !falseOnCleanPaths(info.Uses[id]) {
+					return false
+				}
+				return (!neg && si == 0) || (neg && si == 1)
+			}
 			dfs = func(b *cfg.Block, path []*cfg.Block) bool {
-				for _, s := range b.Succs {
+				for si, s := range b.Succs {
+					if infeasible(b, si) || flagEdgeInfeasible(b, si) {
+						continue
+					}
 					if s == header {
 						witness = append(append([]*cfg.Block(nil), path...), b)
 						return true
